@@ -1705,7 +1705,12 @@ class EnumNode(AstNode):
             # evaluate value
             if member.value is not None:
                 try:
-                    cvalue = int(todict.print_node(member.value))
+                    text = todict.print_node(member.value)
+                    if len(text) > 1 and text[0] == "0" and text.isdigit():
+                        # A C octal literal, 010 is 8.
+                        cvalue = int(text, 8)
+                    else:
+                        cvalue = int(text)
                     fvalue = cvalue
                     value_is_int = True
                 except ValueError:
